@@ -130,7 +130,8 @@ def flag_complex(G, max_order=2, ps=None, seed=None):
 
     nodes = G.nodes()
     N = len(nodes)
-    edges = G.edges()
+    # as sets, so that tuple node labels are not mistaken for (members, id) entries
+    edges = [frozenset(e) for e in G.edges()]
 
     cliques_to_add = _cliques_to_fill(G, max_order)
 
@@ -189,7 +190,8 @@ def flag_complex_d2(G, p2=None, seed=None):
         random.seed(seed)
 
     nodes = G.nodes()
-    edges = G.edges()
+    # as sets, so that tuple node labels are not mistaken for (members, id) entries
+    edges = [frozenset(e) for e in G.edges()]
 
     S = SimplicialComplex()
     S.add_nodes_from(nodes)
@@ -319,4 +321,5 @@ def _cliques_to_fill(G, max_order):
             else:
                 break  # dont go over whole list if not necessary
 
-    return cliques
+    # as sets, so that tuple node labels are not mistaken for (members, id) entries
+    return [frozenset(clique) for clique in cliques]
